@@ -3,8 +3,15 @@
 set -u
 VERIF_DIR="$(cd "$(dirname "$0")" && pwd)"
 export CARGO_NET_OFFLINE=true
+export CARGO_TERM_COLOR=never
 cd "$VERIF_DIR/harness" || exit 1
 [ -f Cargo.lock ] || cp /repo/Cargo.lock Cargo.lock
-cargo build --offline --release --bin verif || exit 1
+export CARGO_TARGET_DIR="$VERIF_DIR/harness/target"
+cargo build --offline --release --bin verif --bin verif_threads --bin sendsync_probe || exit 1
 cargo build --offline --profile=dev --bin verif || exit 1
+# warm the Miri build of the threaded workload (C15); a failure here is not fatal:
+# the check reports the engine as inconclusive if it cannot run.
+MIRIFLAGS="-Zmiri-disable-isolation" CARGO_TARGET_DIR="$VERIF_DIR/harness/target/miri" \
+  timeout 900 cargo +nightly miri run --offline --bin verif_threads -- small 0 >/dev/null 2>&1 \
+  && echo "miri warm-up ok" || echo "miri warm-up failed (C15 will report the engine as inconclusive)"
 echo "setup ok"
